@@ -26,6 +26,7 @@
   listed as not covered in C13.lean except "a threshold passed as the Python int `1`", which IS covered here.
 -/
 import SSJ.Proofs.EntryWide
+import SSJ.Proofs.BodyOK
 import SSJ.Props.C01_wide
 import SSJ.Props.C13
 
@@ -73,7 +74,7 @@ theorem setsim_iff_wide (hm : SetMeasure m) (hv : validateJoin m.name a t = .ok 
     exact (hsound row hrow hk).1
   · intro hq
     obtain ⟨fr', hres', row, hrow, hk, -⟩ := C01.setsim_complete_wide m hm a t toks cpu l r hv hth hs ls hls rs hrs
-      hpl hpr hne (by rw [hns]; exact hq)
+      hpl hpr hne (by rw [hns]; exact hq) (setSimJoinPy_bodyOK m a t toks cpu l r hv fr hres)
     rw [hres] at hres'
     cases Except.ok.inj hres'
     exact ⟨row, hrow, hk⟩
